@@ -30,13 +30,6 @@ def RandFreshAt (env : Env α) (t : State α) : Prop :=
 
 def FreshAt (env : Env α) (t : State α) : Prop := ChooseFreshAt env t ∧ RandFreshAt env t
 
-/-- `P` holds in every state (after the `tri` property was evaluated) from which one of the `n` calls of `_ask`
-made by `ask(n)` in state `s` picks a point that is not a missing corner -/
-def Along (env : Env α) (P : State α → Prop) : Nat → State α → Prop
-  | 0, _ => True
-  | n + 1, s => (missingBound env s = none → ∀ t, touchTri env s = .ok t → P t) ∧
-      ∀ r s1, askOne env s = .ok (r, s1) → Along env P n s1
-
 /-- the hypothesis of `lnd_ask_fresh`: along `ask(n)` from `s`, the oracles `choose_point_in_simplex` and the
 random bootstrap return points that are neither evaluated nor pending -/
 def ChooseFresh (env : Env α) (n : Nat) (s : State α) : Prop := Along env (FreshAt env) n s
@@ -52,10 +45,31 @@ theorem Along.mono (env : Env α) {P Q I : State α → Prop} (pres : Preserved 
     intro r s1 ha
     exact ih (askOne_inv env pres hi ha) (h2 r s1 ha)
 
+theorem AlongRun.mono (env : Env α) {P Q I : State α → Prop} (pres : Preserved env I)
+    (hPQ : ∀ t, I t → P t → Q t) (ops : List (Op α)) :
+    ∀ {s : State α}, I s → AlongRun env P s ops → AlongRun env Q s ops := by
+  induction ops with
+  | nil => intro s _ _; trivial
+  | cons op ops ih =>
+    intro s hi h
+    obtain ⟨h1, h2⟩ := h
+    refine ⟨?_, fun s1 hs => ih (step_inv env pres op hi hs) (h2 s1 hs)⟩
+    cases op with
+    | ask n c =>
+      cases c with
+      | false => trivial
+      | true => exact Along.mono env pres hPQ n hi h1
+    | _ => trivial
+
 theorem not_mem_of_contains_false {l : List Pt} {p : Pt} (h : (!l.contains p) = true) : p ∉ l := by
   intro c
   rw [List.contains_iff_mem.2 c] at h
   exact absurd h (by simp)
+
+theorem contains_false_of_not_mem {l : List Pt} {p : Pt} (h : p ∉ l) : l.contains p = false := by
+  cases hc : l.contains p with
+  | false => rfl
+  | true => exact absurd (List.contains_iff_mem.1 hc) h
 
 /-- one `_ask`: the returned point is fresh, and afterwards it is pending (nothing else changed in `data` /
 `pending_points`) -/
@@ -71,7 +85,8 @@ theorem askOne_fresh (env : Env α) (hin : ∀ p ∈ env.boundsPts, env.inside p
     have hpin := hin p hmem
     obtain ⟨fd, _, _, _, fp, _⟩ := tellPending_frame env p none h1
     rw [hr]
-    simp only [hpin, if_true] at fp
+    simp only [hpin, contains_false_of_not_mem (not_mem_of_contains_false hpred.1), Bool.not_false,
+      Bool.and_self, if_true] at fp
     exact ⟨not_mem_of_contains_false hpred.1, not_mem_of_contains_false hpred.2, fd, fp⟩
   · obtain ⟨hc, hrand⟩ := hf hm s1 h1
     obtain ⟨d1, p1, _, _, _, _⟩ := touchTri_frame env h1
@@ -80,7 +95,7 @@ theorem askOne_fresh (env : Env α) (hin : ∀ p ∈ env.boundsPts, env.inside p
       obtain ⟨fd, _, _, _, fp, _⟩ :=
         tellPending_frame env (s := { s1 with nrand := s1.nrand + 1 }) (env.randPt s1.nrand) none h2
       rw [hr]
-      simp only [c, if_true] at fp
+      simp only [c, contains_false_of_not_mem a, Bool.not_false, Bool.and_self, if_true] at fp
       refine ⟨d1 ▸ a, p1 ▸ b, fd.trans d1, ?_⟩
       rw [fp, p1]
     · obtain ⟨e, q, s2, hp, _, h3, rfl⟩ := askBest_form env h2
@@ -90,7 +105,7 @@ theorem askOne_fresh (env : Env α) (hin : ∀ p ∈ env.boundsPts, env.inside p
       obtain ⟨fd, _, _, _, fp, _⟩ := tellPending_frame env
         (s := { s1 with book := { s1.book with queue := q, p2s := put r.1 e.simplex s1.book.p2s } }) r.1
         (some e.simplex) h3
-      simp only [c, if_true] at fp
+      simp only [c, contains_false_of_not_mem a, Bool.not_false, Bool.and_self, if_true] at fp
       refine ⟨d1 ▸ a, p1 ▸ b, fd.trans d1, ?_⟩
       show s2.pending = _
       rw [fp, p1]
@@ -201,6 +216,49 @@ theorem chooseFreshAt_of_bound (env : Env α) (hG : SubGeom env) (hC : ChooseGeo
       exact hL.notVertex sv ss hss
   refine ⟨fun c => hnot (hb vs ht _ hmem _ (Or.inl c) hpis), fun c => hnot (hb vs ht _ hmem _ (Or.inr c) hpis),
     hC.inside _⟩
+
+/-- a fresh chosen point has no value: `ChooseNewAt` (what the completeness of the queue needs since the repair of
+`tell_pending`) is the data third of `ChooseFreshAt` -/
+theorem ChooseFreshAt.new {env : Env α} {t : State α} (h : ChooseFreshAt env t) : ChooseNewAt env t :=
+  fun vs e q ht hp => (h vs e q ht hp).1
+
+/-- the data half of `PointsBound`: every EVALUATED point that `point_in_simplex` accepts for a simplex of the
+triangulation is a vertex of that simplex' sub-triangulation (a corner of the simplex if it has none).  Unlike
+`PointsBound` this is true of a valid triangulation (a vertex lies in a simplex only as one of its corners). -/
+def DataBound (env : Env α) (t : State α) : Prop :=
+  ∀ vs, t.tri = some vs → ∀ x ∈ env.triSimps vs.length, ∀ p ∈ t.data,
+    env.pis p (ptsOf vs x) = true → p ∈ (get? x t.book.subs).getD (ptsOf vs x)
+
+theorem PointsBound.data {env : Env α} {t : State α} (h : PointsBound env t) : DataBound env t :=
+  fun vs ht x hx p hp => h vs ht x hx p (Or.inl hp)
+
+/-- `ChooseNewAt` from local truthfulness of `choose` and `DataBound` -/
+theorem chooseNewAt_of_bound (env : Env α) (hG : SubGeom env) (hC : ChooseGeom env) (hL : ChooseLocal env)
+    {t : State α} (hv : SubVerts env t) (hb : DataBound env t) : ChooseNewAt env t := by
+  intro vs e q ht hp
+  obtain ⟨_, _, hlive, _⟩ := popHighest_spec env _ _ hp
+  rw [live_iff] at hlive
+  obtain ⟨hmem, hls⟩ := hlive
+  have hpis := chosen_pis env hG hC ht hv hmem hls
+  have hnot : env.choose (chosenPts vs t.book.subs e) ∉ (get? e.simplex t.book.subs).getD (ptsOf vs e.simplex) := by
+    cases ho : e.sub with
+    | none =>
+      simp only [pairOf, ho, liveSub] at hls
+      simp only [chosenPts, ho, hls, Option.getD_none]
+      exact hL.notCorner _
+    | some ss =>
+      simp only [pairOf, ho, liveSub] at hls
+      obtain ⟨sv, hsv, hss⟩ := hls
+      simp only [chosenPts, ho, hsv, Option.getD_some]
+      exact hL.notVertex sv ss hss
+  exact fun c => hnot (hb vs ht _ hmem _ c hpis)
+
+/-- `AskNew` (the chosen points of a history had no value) from local truthfulness of `choose` and `DataBound` in the
+states `_ask_best_point` starts from -/
+theorem askNew_of_bound (env : Env α) (hT : TriGeom env) (hG : SubGeom env) (hC : ChooseGeom env)
+    (hL : ChooseLocal env) (ops : List (Op α)) (h : AlongRun env (DataBound env) (init env) ops) : AskNew env ops :=
+  AlongRun.mono env (subVerts_preserved env hT)
+    (fun t hv hb => chooseNewAt_of_bound env hG hC hL hv hb) ops (init_subVerts env) h
 
 /-- `ChooseFresh` from `PointsBound` (and freshness of the random bootstrap points) along the `ask(n)`, for a state
 in which the sub-triangulation vertex lists have their form (every reachable state, `run_subVerts`) -/
